@@ -78,7 +78,10 @@ PredFor(o, cls) == IF cls = "m" THEN o.vm ELSE IF cls = "e" THEN o.ve ELSE o.vd
 Unpredicted(c, o) == { j \in 1..Len(c.labels) : PredFor(o, c.labels[j].cls) \notin Range(c.labels[j].is) }
 SetToSortedClasses(S) == (IF "d" \in S THEN <<"d">> ELSE <<>>) \o (IF "m" \in S THEN <<"m">> ELSE <<>>) \o (IF "e" \in S THEN <<"e">> ELSE <<>>)
 LostObserved(c) == SetToSortedClasses({ c.labels[j].cls : j \in BadOptions(c) })
-TornAfter(c) == { j \in 1..Len(c.after) : c.after[j].st \in {"empty", "partial"} }
+\* state files left torn by the follow-up.  The private copy of a piped machine file that was being written
+\* when a *first* setup was killed is an orphan - nothing names it, the pipe is gone - and not state of that run.
+TornAfter(c, m) == { j \in 1..Len(c.after) : /\ c.after[j].st \in {"empty", "partial"}
+                                              /\ ~(c.after[j].f = MFile /\ ~ReadsMachineFiles(m)) }
 
 V(c, clause, kind, m, note) ==
     [mode |-> "real", id |-> c.id, clause |-> clause, kind |-> kind, sig |-> Sig(m),
@@ -97,7 +100,7 @@ JudgeState(c, scr, m) ==
         ELSE IF BadOptions(c) # {} THEN V(c, "ValuesOldOrNew", scr.kind, m, ToString({ c.labels[j] : j \in BadOptions(c) }))
         ELSE IF scr.failed /\ (\E j \in 1..Len(c.labels) : "old" \notin Range(c.labels[j].is))
              THEN V(c, "RolledBack", scr.kind, m, ToString({ c.labels[j] : j \in { n \in 1..Len(c.labels) : "old" \notin Range(c.labels[n].is) } }))
-        ELSE IF TornAfter(c) # {} THEN V(c, "StateReadable", scr.kind, m, ToString({ c.after[j] : j \in TornAfter(c) }))
+        ELSE IF TornAfter(c, m) # {} THEN V(c, "StateReadable", scr.kind, m, ToString({ c.after[j] : j \in TornAfter(c, m) }))
         ELSE IF ~o.ok THEN V(c, "ModelDisagrees", scr.kind, m, "model-predicted-failure")
         ELSE IF Unpredicted(c, o) # {} THEN V(c, "ModelDisagrees", scr.kind, m,
                                                   ToString(<<o, { c.labels[j] : j \in Unpredicted(c, o) }>>))
